@@ -68,6 +68,13 @@ func (g *clientGen) socketCases() []KCase {
 			out = append(out, KCase{Kind: "exactfit", Buf: hex.EncodeToString(g.bytesN(n)), Typ: uint16(2000 + g.rng.Intn(60000)), Calls: spare})
 		}
 	}
+	// one message per Send and nothing behind it: a long message whose payload is a row of well-formed 16-byte
+	// headers, then shorter ones; the kernel answers every header it finds in a datagram
+	for _, tiles := range []int{4, 64, 500} {
+		for _, short := range []int{0, 16, 48} {
+			out = append(out, KCase{Kind: "tail", Iters: tiles, Calls: short})
+		}
+	}
 	// the sequence counter across the uint32 wrap (the counter is started just below 2^32)
 	for _, back := range []uint32{1, 2, 5} {
 		out = append(out, KCase{Kind: "seqwrap", Seq0: 0xFFFFFFFF - back, Calls: 12})
@@ -642,6 +649,74 @@ func runExactFitCase(ctx *Ctx, c KCase, idx int) *common.Violation {
 	}
 	if len(msgs) != 1 || msgs[0].Header.Type != syscall.NLMSG_ERROR || msgs[0].Header.Seq != seq || len(msgs[0].Data) != want-16 || !bytes.Equal(msgs[0].Data[20:], payload) {
 		return viol("C18: Receive did not return the type and payload of the kernel's datagram unchanged (exact-fit buffer)", fmt.Sprintf("%+v", msgs))
+	}
+	return nil
+}
+
+// runTailCase: "Send puts on the wire one netlink message". What a client puts on the wire can only be seen through the
+// kernel, which answers each message it finds in a datagram and nothing else. A first, long message carries as payload a
+// row of 16-byte netlink headers (NLMSG_NOOP, request+ack, sequence numbers 0x5EED0000+i): for the kernel that is one
+// message, one answer. Then shorter messages follow on the same client. Every answer must carry the sequence number
+// of a message that was sent; an answer to one of the embedded headers means that bytes of an earlier message went out
+// behind a later one.
+func runTailCase(ctx *Ctx, c KCase, idx int) *common.Violation {
+	ctx.Res.Count(c.canon(), true)
+	ctx.Res.Hist("nothing_behind_the_message")
+	viol := func(clause, impl string) *common.Violation {
+		return &common.Violation{Kind: "monitor", Clause: clause, Input: c, Impl: impl, Case: idx}
+	}
+	nl, err := libaudit.NewNetlinkClient(syscall.NETLINK_ROUTE, 0, make([]byte, 64*1024), nil)
+	if err != nil {
+		socks.note(ctx, "route", "C18 clauses NOT explored: cannot open a NETLINK_ROUTE socket: "+err.Error())
+		return nil
+	}
+	defer nl.Close()
+	fl := uint16(syscall.NLM_F_REQUEST | syscall.NLM_F_ACK)
+	long := make([]byte, 0, 16*c.Iters)
+	for i := 0; i < c.Iters; i++ {
+		long = append(long, dgram(16, syscall.NLMSG_NOOP, fl, 0x5EED0000+uint32(i), 0, nil)...)
+	}
+	sent := map[uint32]bool{}
+	send := func(data []byte) *common.Violation {
+		seq, err := nl.Send(syscall.NetlinkMessage{Header: syscall.NlMsghdr{Type: syscall.NLMSG_NOOP, Flags: fl}, Data: data})
+		if err != nil {
+			return viol("C18: Send on a NETLINK_ROUTE socket failed: "+err.Error(), "")
+		}
+		sent[seq] = true
+		return nil
+	}
+	if v := send(long); v != nil {
+		return v
+	}
+	for k := 0; k < 3; k++ {
+		if v := send(make([]byte, c.Calls)); v != nil {
+			return v
+		}
+	}
+	// collect the kernel's answers until it has been quiet for 30 ms
+	var answers []uint32
+	quiet := time.Now()
+	for time.Since(quiet) < 30*time.Millisecond {
+		msgs, err := nl.Receive(true, syscall.ParseNetlinkMessage)
+		if err != nil {
+			if errors.Is(err, syscall.EAGAIN) || errors.Is(err, syscall.EINTR) {
+				time.Sleep(200 * time.Microsecond)
+				continue
+			}
+			return viol("C18: Receive failed while collecting the kernel's answers: "+err.Error(), "")
+		}
+		for _, m := range msgs {
+			answers = append(answers, m.Header.Seq)
+		}
+		quiet = time.Now()
+	}
+	for _, s := range answers {
+		if !sent[s] {
+			return viol(fmt.Sprintf("C18: the kernel answered a message with sequence number %#x that was never sent: after a message of %d payload bytes, a Send of %d payload bytes put more on the wire than its one message (the kernel found a further header behind it)", s, len(long), c.Calls), fmt.Sprintf("answers: %#x", answers))
+		}
+	}
+	if len(answers) != len(sent) {
+		return viol(fmt.Sprintf("C18: %d messages were sent with NLM_F_ACK, the kernel answered %d", len(sent), len(answers)), fmt.Sprintf("answers: %#x", answers))
 	}
 	return nil
 }
